@@ -30,7 +30,7 @@ let () =
   register "c11_po_quote" (fun a -> match a with
     | s :: rest ->
         let (pr, _) = parse_printable rest in
-        let q = go_quote pr (bstr_of_hex s) in
+        let q = po_go_quote pr (bstr_of_hex s) in
         (match go_unquote q with
          | Ok v -> [hex_of_bstr q; "ok"; hex_of_bstr v]
          | o -> [hex_of_bstr q; cls o; "-"])
